@@ -611,7 +611,7 @@ Lemma validate_normalize_list l k uts :
   = if Z.of_nat (length l) =? k then Ok VNone else Err ValueError.
 Proof.
   unfold py_parameter_validation_validate_normalize_parameter.
-  cbn [bind bind2 cond py_isinstance existsb py_isinstance1 orb truthy and_then py_len py_ne is_array scalar_eqb as_num num_eqb].
+  cbn [bind bind2 cond py_isinstance py_isinstance_x py_isinstance1_x existsb py_isinstance1 orb truthy and_then py_len py_ne is_array scalar_eqb as_num num_eqb].
   destruct (Z.of_nat (length l) =? k); reflexivity.
 Qed.
 
@@ -620,7 +620,18 @@ Lemma validate_normalize_array kd n d k uts :
   = if n =? k then Ok VNone else Err ValueError.
 Proof.
   unfold py_parameter_validation_validate_normalize_parameter.
-  cbn [bind bind2 cond py_isinstance existsb py_isinstance1 orb truthy and_then py_len].
+  cbn [bind bind2 cond py_isinstance py_isinstance_x py_isinstance1_x existsb py_isinstance1 orb truthy and_then py_len].
+  unfold py_ne. cbn [is_array orb scalar_eqb as_num num_eqb truthy bind].
+  destruct (n =? k); reflexivity.
+Qed.
+
+(* NumPy arrays likewise *)
+Lemma validate_normalize_nparray kd n d k uts :
+  py_parameter_validation_validate_normalize_parameter (VNpArr kd [n] d) (VArr KF [k] uts)
+  = if n =? k then Ok VNone else Err ValueError.
+Proof.
+  unfold py_parameter_validation_validate_normalize_parameter.
+  cbn [bind bind2 cond py_isinstance py_isinstance_x py_isinstance1_x existsb py_isinstance1 orb truthy and_then py_len].
   unfold py_ne. cbn [is_array orb scalar_eqb as_num num_eqb truthy bind].
   destruct (n =? k); reflexivity.
 Qed.
@@ -632,42 +643,52 @@ Proof. intros [->|[b ->]]; reflexivity. Qed.
 (* ---------- compute_average_cell_count: the predictor's n_obs ---------- *)
 Definition n_unique (dat : list xf) (n c : Z) : Z := Z.of_nat (length (sort_dedup (col_list dat n c (c - 1)))).
 
-Lemma average_head n c dat (rest : val -> val -> res val) :
-  1 <= c ->
-  bind (bind2 py_getitem_x (bind (Ok (VArr KF [n; c] dat)) np_shape) (Ok (VInt 0))) (fun n_cells =>
-  bind (bind (bind2 np_col (Ok (VArr KF [n; c] dat)) (Ok (VInt (-1)))) np_unique) (fun unique_times =>
-  bind (bind2 py_getitem_x (bind (Ok unique_times) np_shape) (Ok (VInt 0))) (fun n_unique_times =>
-  rest n_cells n_unique_times)))
-  = rest (VInt n) (VInt (n_unique dat n c)).
-Proof.
-  intros Hc. cbn [bind bind2 np_shape map py_getitem_x py_getitem np_index1 as_num Z.ltb length].
-  unfold nthZ. cbn [Z.to_nat nth Z.leb Z.ltb Z.compare Z.of_nat andb Pos.of_succ_nat Pos.succ].
-  unfold np_col. cbn [as_num].
-  destruct (Z.ltb_spec (-1) 0); [|lia].
-  destruct (Z.leb_spec 0 (-1 + c)); [|lia]. destruct (Z.ltb_spec (-1 + c) c); [|lia].
-  cbn [andb bind np_unique np_shape map py_getitem np_index1 as_num].
-  cbn [length Z.of_nat Z.ltb Z.leb Z.compare andb Pos.of_succ_nat Pos.succ]. unfold nthZ. cbn [Z.to_nat nth].
-  replace (-1 + c) with (c - 1) by lia. reflexivity.
-Qed.
+Ltac avg_head c :=
+  unfold py_parameters_compute_average_cell_count;
+  cbn [bind bind2 np_shape map py_getitem_x py_getitem np_index1 as_num Z.ltb length];
+  unfold nthZ; cbn [Z.to_nat nth Z.leb Z.ltb Z.compare Z.of_nat andb Pos.of_succ_nat Pos.succ];
+  unfold np_col; cbn [as_num];
+  destruct (Z.ltb_spec (-1) 0); [|lia];
+  destruct (Z.leb_spec 0 (-1 + c)); [|lia]; destruct (Z.ltb_spec (-1 + c) c); [|lia];
+  replace (-1 + c) with (c - 1) by lia;
+  cbn [andb bind np_unique np_shape map py_getitem np_index1 as_num];
+  cbn [length Z.of_nat Z.ltb Z.leb Z.compare andb Pos.of_succ_nat Pos.succ]; unfold nthZ; cbn [Z.to_nat nth].
 
 (* None / True / False: cells per time point *)
 Lemma average_count_flag n c dat nz :
   1 <= c -> nz = VNone \/ (exists b, nz = VBool b) ->
   py_parameters_compute_average_cell_count (VArr KF [n; c] dat) nz = py_truediv (VInt n) (VInt (n_unique dat n c)).
 Proof.
-  intros Hc Hnz. unfold py_parameters_compute_average_cell_count.
-  rewrite (average_head n c dat _ Hc).
+  intros Hc Hnz. avg_head c.
   destruct Hnz as [->|[b ->]]; reflexivity.
 Qed.
 
-(* dict: sum of the entries over the number of time points *)
+(* dict: mean of the entries of the time points PRESENT in the data *)
+Definition dict_get (l : list (val * val)) (u : xf) : val :=
+  match assoc_lookup (VFloat u) l with Some w => w | None => VNone end.
+Definition dict_has (l : list (val * val)) (u : xf) : bool :=
+  match assoc_lookup (VFloat u) l with Some _ => true | None => false end.
+
 Lemma average_count_dict n c dat l :
-  1 <= c ->
+  1 <= c -> forallb (dict_has l) (sort_dedup (col_list dat n c (c - 1))) = true ->
   py_parameters_compute_average_cell_count (VArr KF [n; c] dat) (VDict l)
-  = bind (py_sum (VList (map snd l))) (fun s => py_truediv s (VInt (n_unique dat n c))).
+  = bind (py_sum (VList (map (dict_get l) (sort_dedup (col_list dat n c (c - 1))))))
+         (fun s => py_truediv s (VInt (n_unique dat n c))).
 Proof.
-  intros Hc. unfold py_parameters_compute_average_cell_count.
-  rewrite (average_head n c dat _ Hc). reflexivity.
+  intros Hc Hall. avg_head c.
+  cbn [or_else cond bind bind2 py_is truthy py_isinstance existsb py_isinstance1 orb].
+  unfold py_listcomp. cbn [iter_items bind].
+  rewrite (listcomp_go_filter _ _ (fun v => match v with VArr KF [] [u] => dict_get l u | _ => VNone end) (fun _ => true)).
+  - cbn [rmap bind]. fold (n_unique dat n c).
+    replace (filter (fun _ : val => true) (map (fun x : xf => VArr KF [] [x]) (sort_dedup (col_list dat n c (c - 1)))))
+      with (map (fun x : xf => VArr KF [] [x]) (sort_dedup (col_list dat n c (c - 1)))).
+    2:{ generalize (sort_dedup (col_list dat n c (c - 1))). intros q. induction q as [|a q IH]; [reflexivity|]. cbn [map filter]. rewrite <- IH. reflexivity. }
+    rewrite map_map. reflexivity.
+  - intros x Hx. apply in_map_iff in Hx. destruct Hx as [u [<- Hu]].
+    rewrite forallb_forall in Hall. specialize (Hall u Hu). unfold dict_has in Hall. unfold dict_get.
+    cbn [bind bind2 np_item elem_val py_getitem_x py_getitem].
+    destruct (assoc_lookup (VFloat u) l); [reflexivity|discriminate].
+  - reflexivity.
 Qed.
 
 (* list / array: mean of the entries *)
@@ -676,8 +697,7 @@ Lemma average_count_list n c dat l :
   py_parameters_compute_average_cell_count (VArr KF [n; c] dat) (VList l)
   = bind (bind (np_asarray (VList l)) np_sum) (fun s => py_truediv s (VInt (Z.of_nat (length l)))).
 Proof.
-  intros Hc. unfold py_parameters_compute_average_cell_count.
-  rewrite (average_head n c dat _ Hc). reflexivity.
+  intros Hc. avg_head c. reflexivity.
 Qed.
 
 Lemma py_sum_ints_from (zs : list Z) a :
@@ -701,22 +721,32 @@ Section Methods.
     = bind (nnw x VNone VNone (VBool false)) (fun raw => bind (ls_of raw) (fun ls => py_mul ls ls_factor)).
   Proof.
     intros H. unfold tsde_compute_ls.
-    destruct nz; try discriminate; try reflexivity.
-    destruct b; [|discriminate]. reflexivity.
+    assert (E : forall m : res val, bind m (fun ls0 => Ok ls0) = m) by (intros [|]; reflexivity).
+    destruct nz; try discriminate; try (destruct b; [|discriminate]);
+      cbn [bind bind2 and_then cond py_is_not py_is truthy negb];
+      (destruct (nnw x VNone VNone (VBool false)) as [raw|]; cbn [bind]; [|reflexivity]);
+      (destruct (ls_of raw) as [ls|]; cbn [bind]; [|reflexivity]); apply E.
   Qed.
 
   Lemma ls_without_normalisation ls_factor nn nz x :
     norm_on nz = false ->
     tsde_compute_ls nnw ls_of ls_factor nn nz x = bind (ls_of nn) (fun ls => py_mul ls ls_factor).
   Proof.
-    intros H. unfold tsde_compute_ls. destruct nz; try discriminate; [reflexivity|]. destruct b; [discriminate|reflexivity].
+    intros H. unfold tsde_compute_ls.
+    assert (E : forall m : res val, bind m (fun ls0 => Ok ls0) = m) by (intros [|]; reflexivity).
+    destruct nz; try discriminate; try (destruct b; [discriminate|]);
+      cbn [bind bind2 and_then cond py_is_not py_is truthy negb Bool.eqb];
+      (destruct (ls_of nn) as [ls|]; cbn [bind]; [|reflexivity]); apply E.
   Qed.
 
   (* _compute_nn_distances hands x, d and the normalize setting to the routine (times = None) *)
   Lemma compute_nn_wiring d nz x :
     tsde_compute_nn_distances nnw d nz x
     = bind (nnw x VNone d nz) (fun v => py_validation_validate_nn_distances v (VBool false)).
-  Proof. unfold tsde_compute_nn_distances. cbn [bind bind2]. destruct (nnw x VNone d nz); reflexivity. Qed.
+  Proof.
+    unfold tsde_compute_nn_distances. cbn [bind bind2]. destruct (nnw x VNone d nz) as [v|]; cbn [bind]; [|reflexivity].
+    destruct (py_validation_validate_nn_distances v (VBool false)); reflexivity.
+  Qed.
 End Methods.
 
 (* BaseEstimator._prepare_attribute: compute only when the attribute is None (hand model, as in C15) *)
@@ -726,3 +756,106 @@ Definition prepare_attr14 (given : val) (computed : res val) : res val :=
 Lemma explicit_nn_untouched_lemma nnw k n dat d nz x :
   prepare_attr14 (VArr k [n] dat) (tsde_compute_nn_distances nnw d nz x) = Ok (VArr k [n] dat).
 Proof. reflexivity. Qed.
+
+(* ---------- the whole routine (times as the trailing column, already a float matrix) ---------- *)
+Lemma vtx_column n c dat :
+  py_validation_validate_time_x (VArr KF [n; c] dat) VNone VNone (VBool false) = Ok (VArr KF [n; c] dat).
+Proof. reflexivity. Qed.
+
+Lemma prologue_column_off n c dat d nz : 1 <= c -> nz = VNone \/ nz = VBool false ->
+  nnwt_prologue (VArr KF [n; c] dat) VNone d nz
+  = bind (np_empty (VInt n)) (fun init =>
+    bind (py_truediv (VInt n) (VInt (n_unique dat n c))) (fun av =>
+    Ok (VTuple [VArr KF [n; c] dat; VArr KF [n_unique dat n c] (sort_dedup (col_list dat n c (c - 1))); init; av; d]))).
+Proof.
+  intros Hc Hnz. unfold nnwt_prologue.
+  cbn [bind]. rewrite vtx_column. cbn [bind bind2].
+  unfold np_col. cbn [as_num].
+  destruct (Z.ltb_spec (-1) 0); [|lia].
+  destruct (Z.leb_spec 0 (-1 + c)); [|lia]. destruct (Z.ltb_spec (-1 + c) c); [|lia].
+  replace (-1 + c) with (c - 1) by lia.
+  cbn [andb bind np_unique np_shape map py_getitem_x py_getitem np_index1 as_num].
+  cbn [length Z.of_nat Z.ltb Z.leb Z.compare andb Pos.of_succ_nat Pos.succ]. unfold nthZ. cbn [Z.to_nat nth].
+  fold (n_unique dat n c).
+  change (bind2 py_getitem_x (Ok (VTuple [VInt n; VInt c])) (Ok (VInt 0))) with (Ok (VInt n)).
+  cbn [bind].
+  destruct (np_empty (VInt n)) as [init|]; cbn [bind]; [|reflexivity].
+  cbn [py_len bind].
+  destruct (py_truediv (VInt n) (VInt (n_unique dat n c))) as [av|]; cbn [bind]; [|reflexivity].
+  destruct Hnz as [-> | ->]; reflexivity.
+Qed.
+
+Lemma take_rows_length {A} (c rows : nat) (d : list A) : length (take_rows c rows d) = rows.
+Proof. revert d; induction rows as [|r IH]; intros d; simpl; [reflexivity|]. now rewrite IH. Qed.
+
+Lemma col_list_length dat n c j : length (col_list dat n c j) = Z.to_nat n.
+Proof. unfold col_list. rewrite map_length. apply range_from_length. Qed.
+
+Lemma cells_of_length dat n c : length (cells_of dat n c) = Z.to_nat n.
+Proof.
+  unfold cells_of, feature_rows. rewrite combine_length, map_length, take_rows_length, col_list_length. lia.
+Qed.
+
+Lemma map_snd_combine {A B} (a : list A) (b : list B) : length a = length b -> map snd (combine a b) = b.
+Proof. revert b; induction a as [|x a IH]; intros [|y b] H; simpl in *; try discriminate; [reflexivity|]. now rewrite IH by lia. Qed.
+Lemma map_fst_combine {A B} (a : list A) (b : list B) : length a = length b -> map fst (combine a b) = a.
+Proof. revert b; induction a as [|x a IH]; intros [|y b] H; simpl in *; try discriminate; [reflexivity|]. now rewrite IH by lia. Qed.
+
+Lemma cells_times dat n c : map snd (cells_of dat n c) = col_list dat n c (c - 1).
+Proof. unfold cells_of, feature_rows. apply map_snd_combine. rewrite map_length, take_rows_length, col_list_length. reflexivity. Qed.
+Lemma cells_features dat n c : map fst (cells_of dat n c) = feature_rows dat n c.
+Proof. unfold cells_of, feature_rows. apply map_fst_combine. rewrite map_length, take_rows_length, col_list_length. reflexivity. Qed.
+
+Lemma xf_eqb_nan_r a : xf_eqb a XNaN = false.
+Proof. destruct a; reflexivity. Qed.
+
+Lemma mask_nan_empty {P} (cs : list (P * xf)) : count_true (mask_of cs XNaN) = 0%nat.
+Proof. unfold mask_of, count_true. induction cs as [|c cs IH]; [reflexivity|]. cbn [map filter]. rewrite xf_eqb_nan_r. exact IH. Qed.
+
+Section Top.
+  Variable nn_oracle : list (list xf) -> list xf.
+  Variable powf : xf -> xf -> xf.
+  Hypothesis nn_len : forall g, length (nn_oracle g) = length g.
+
+  (* without normalisation: output i is the neighbour distance of cell i within the cells sharing its time stamp,
+     in the original order; all time stamps are numbers *)
+  Theorem nn_within_column_raw n c dat d nz v :
+    0 <= n -> 1 <= c -> nz = VNone \/ nz = VBool false ->
+    nn_within nn_oracle powf (VArr KF [n; c] dat) VNone d nz = Ok v ->
+    let cs := cells_of dat n c in
+    let uts := sort_dedup (col_list dat n c (c - 1)) in
+    exists out, v = VArr KF [n] out /\ length out = Z.to_nat n /\
+      forall i, (i < Z.to_nat n)%nat ->
+        exists u, In u uts /\ xf_eqb (time_of cs i) u = true /\ (2 <= count_true (mask_of cs u))%nat /\
+          nth i out XNaN = nth (rank (mask_of cs u) i) (nn_oracle (select (mask_of cs u) (feature_rows dat n c))) XNaN.
+  Proof.
+    intros Hn Hc Hnz H cs uts. unfold nn_within in H. rewrite (prologue_column_off n c dat d nz Hc Hnz) in H.
+    unfold np_empty in H. cbn [as_num] in H. destruct (Z.ltb_spec n 0) as [|_]; [lia|]. cbn [bind] in H.
+    destruct (py_truediv (VInt n) (VInt (n_unique dat n c))) as [av|] eqn:Hav; cbn [bind] in H; [|discriminate].
+    fold cs uts in H.
+    destruct (loop nn_oracle (fac_of powf nz av (VArr KF [n_unique dat n c] uts) d) cs uts (repeat (XFin 0) (Z.to_nat n)))
+      as [out|] eqn:Hl; cbn [bind] in H; [|discriminate].
+    injection H as <-. exists out.
+    assert (Hoff : norm_on nz = false) by (destruct Hnz as [-> | ->]; reflexivity).
+    destruct (loop_spec nn_oracle (fac_of powf nz av (VArr KF [n_unique dat n c] uts) d) nn_len cs) with (uts := uts)
+      (init := repeat (XFin 0) (Z.to_nat n)) (out := out) as [Ho [Hin _]].
+    - intros t fs Hf. rewrite fac_of_off in Hf by exact Hoff. discriminate.
+    - rewrite repeat_length. unfold cs. rewrite cells_of_length. reflexivity.
+    - apply sort_dedup_distinct.
+    - exact Hl.
+    - split; [reflexivity|]. split; [rewrite Ho; unfold cs; apply cells_of_length|].
+      intros i Hi.
+      assert (Hti : time_of cs i = nth i (col_list dat n c (c - 1)) XNaN) by (unfold time_of, cs; rewrite cells_times; reflexivity).
+      assert (Hnn : xf_isnan (time_of cs i) = false).
+      { destruct (xf_isnan (time_of cs i)) eqn:E; [|reflexivity]. exfalso.
+        assert (Hex : existsb xf_isnan (col_list dat n c (c - 1)) = true).
+        { apply existsb_exists. exists (time_of cs i). split; [|exact E]. rewrite Hti. apply nth_In. rewrite col_list_length. exact Hi. }
+        destruct (Hin XNaN (sort_dedup_nan _ Hex)) as [Hc2 _]. rewrite mask_nan_empty in Hc2. lia. }
+      destruct (sort_dedup_cover (col_list dat n c (c - 1)) (time_of cs i)) as [u [Hu Hm]]; [rewrite Hti; apply nth_In; rewrite col_list_length; exact Hi|exact Hnn|].
+      exists u. split; [exact Hu|]. split; [exact Hm|].
+      destruct (Hin u Hu) as [Hc2 [fo [Hf Hval]]]. split; [exact Hc2|].
+      rewrite fac_of_off in Hf by exact Hoff. injection Hf as <-.
+      rewrite (Hval i); [|unfold cs; rewrite cells_of_length; exact Hi|exact Hm].
+      unfold value_at. unfold cs at 3. rewrite cells_features. reflexivity.
+  Qed.
+End Top.
